@@ -122,13 +122,43 @@ def updPath : Dict → List String → CV → Dict
 
 /-! ## Data, flow values -/
 
+/-- the class of a container that stands in a bin (seed round I/J: bins may hold containers — a histogram made
+by `SplitIntoBins(StoreFilled(), …)` has a list of the stored values in every bin) -/
+inductive ContCls where
+  | list | tuple | dict
+  deriving DecidableEq, Repr
+
+/-- what stands at index 0 of a container in a bin (that is where a descent `bins[0]` would land) -/
+inductive ContFirst where
+  | empty    -- nothing: the container is empty
+  | num      -- a number
+  | hist     -- a histogram
+  | pair     -- a `(number, context)` pair
+  | list     -- a non-empty list (nested once more)
+  | elist    -- an empty list (nested once more)
+  deriving DecidableEq, Repr
+
 /-- what the bins of a histogram hold (all bins of one histogram alike) -/
 inductive BinKind where
   | num      -- numbers
   | hist     -- one-dimensional histograms of numbers
   | vec      -- 3-tuples of numbers
   | pair     -- `(number, context)` pairs
+  /-- containers: a list / tuple / dictionary per bin (bin 0 as `first` says; for a dictionary `first` is what
+  stands under the key `0`) -/
+  | cont (cls : ContCls) (first : ContFirst)
   deriving DecidableEq, Repr
+
+/-- the Python class `select_bins` sees when it is given the data part of a bin of this kind
+(`Selector([int, …])` tests `isinstance`): "int", "histogram", "tuple", "list", "dict" -/
+def BinKind.cls : BinKind → String
+  | .num => "int"
+  | .hist => "histogram"
+  | .vec => "tuple"
+  | .pair => "int"
+  | .cont .list _ => "list"
+  | .cont .tuple _ => "tuple"
+  | .cont .dict _ => "dict"
 
 /-- what `data.rows()` returns -/
 inductive RowsKind where
@@ -744,6 +774,11 @@ def cell (v : Item) (h : HistD) (i : Nat) : Item :=
   | .hist => ⟨t, .hist ⟨h.id * 100 + i + 1, 1, [1], .num⟩, none⟩
   | .vec => ⟨t, .seq true [.int i, .int 0, .int 0], none⟩
   | .pair => ⟨t, .int i, some ⟨.made v.tok (1001 + 2 * i), [("a", .int 1)]⟩⟩
+  -- a container in a bin is a value without context (a 1-tuple / a list / a dictionary is not a `(data, context)`
+  -- pair).  NOT modelled: `MapBins` on selected histograms of LISTS (`md_map` descends into the lists)
+  | .cont .list _ => ⟨t, .other "list" 0 true, none⟩
+  | .cont .tuple _ => ⟨t, .other "tuple" 0 true, none⟩
+  | .cont .dict _ => ⟨t, .other "dict" 0 true, none⟩
 
 /-! ## `IterateBins.run` (split_into_bins.py:79-131) -/
 
@@ -855,6 +890,132 @@ def mapBinsStep {σ : Type} (selectBins : BinKind → Bool) (inner : Item → Ce
       let res := (List.range h.ncells).map (fun i => inner (cell v h i))
       let bound := (res.map (fun r => r.1.length)).foldl max 0 + 1
       mapBinsRounds dropCtx v h v.dict res s bound 0 []
+  | _ => pass s v
+
+/-! ## `get_example_bin` (hist_functions.py:286-300) — which bin `select_bins` is shown
+
+Seed round I/J.  `IterateBins.run` and `MapBins.run` test `select_bins` on `get_example_bin(hist)`.  For a histogram
+that is `get_bin_on_index([0] * dim, bins)`: exactly `dim` subscripts, so a bin that is itself a list (the stored
+values of `SplitIntoBins(StoreFilled(), …)`) is returned WHOLE.  For a bare array of bins the same function descends
+`while isinstance(bins, list): bins = bins[0]` — into a list-valued bin.  The loops above abstract the example bin by
+`h.bin`; this section models the nested Python lists so that the abstraction is a theorem
+(`Props/C10.lean`: `exampleOfHist_wellShaped`, `iterateBinsStepE_eq`). -/
+
+/-- a Python value as `get_bin_on_index` / `get_example_bin` see it: a list (subscripted, `isinstance(·, list)`) or
+anything else, known by its kind -/
+inductive PyV where
+  | atom (k : BinKind)
+  | list (xs : List PyV)
+  deriving Repr
+
+/-- the items of a list in a bin, by what stands first -/
+def contItems : ContFirst → List PyV
+  | .empty => []
+  | .num => [.atom .num, .atom .num]
+  | .hist => [.atom .hist, .atom .hist]
+  | .pair => [.atom .pair]
+  | .list => [.list [.atom .num], .list []]
+  | .elist => [.list [], .atom .num]
+
+/-- the content of one bin: only a LIST in a bin is a `PyV.list` (tuples, dictionaries, histograms, pairs and
+numbers are not instances of `list`) -/
+def binVal : BinKind → PyV
+  | .cont .list f => .list (contItems f)
+  | k => .atom k
+
+/-- what stands first in a list -/
+def firstOf : List PyV → ContFirst
+  | [] => .empty
+  | .atom .hist :: _ => .hist
+  | .atom .pair :: _ => .pair
+  | .atom _ :: _ => .num
+  | .list [] :: _ => .elist
+  | .list (_ :: _) :: _ => .list
+
+/-- the kind of a value standing in a bin (left inverse of `binVal`: `kindOfPyV_binVal`) -/
+def kindOfPyV : PyV → BinKind
+  | .atom k => k
+  | .list xs => .cont .list (firstOf xs)
+
+/-- `histogram.bins` for the given shape with `b` in every bin: nested lists, one level per axis -/
+def nestBins (b : PyV) : List Nat → PyV
+  | [] => b
+  | n :: ns => .list (List.replicate n (nestBins b ns))
+
+/-- the bins of the histogram `h` as nested lists -/
+def HistD.binsVal (h : HistD) : PyV := nestBins (binVal h.bin) h.shape
+
+/-- the result of looking for the example bin -/
+inductive ExBin where
+  | ok (v : PyV)
+  | lenaIndexError     -- `get_bin_on_index`: `except IndexError: raise LenaIndexError`
+  | indexError         -- `bins[0]` on an empty list
+  | notAList           -- a subscript applied to something the model does not subscript
+  deriving Repr
+
+/-- `get_bin_on_index(index, bins)` (hist_functions.py:126-156): `for ind in index: subarr = subarr[ind]` -/
+def getBinOnIndex : List Nat → PyV → ExBin
+  | [], v => .ok v
+  | _ :: _, .atom _ => .notAList
+  | i :: is, .list xs =>
+    match xs[i]? with
+    | some x => getBinOnIndex is x
+    | none => .lenaIndexError
+
+/-- `get_example_bin(struct)` for a histogram of dimension `dim`: `get_bin_on_index([0] * struct.dim, struct.bins)` -/
+def exampleOfHist (dim : Nat) (bins : PyV) : ExBin := getBinOnIndex (List.replicate dim 0) bins
+
+/-- `get_example_bin(struct)` for an array of bins: `while isinstance(bins, list): bins = bins[0]`
+(`fuel`: an upper bound of the nesting depth; `exampleOfArray` gives enough) -/
+def exampleOfArrayFuel : Nat → PyV → ExBin
+  | _, .atom k => .ok (.atom k)
+  | _, .list [] => .indexError
+  | 0, .list (_ :: _) => .notAList
+  | fuel + 1, .list (x :: _) => exampleOfArrayFuel fuel x
+
+/-- nesting depth of lists along the first items -/
+def PyV.depth0 : Nat → PyV → Nat
+  | 0, _ => 0
+  | _ + 1, .atom _ => 0
+  | _ + 1, .list [] => 1
+  | n + 1, .list (x :: _) => 1 + PyV.depth0 n x
+
+def exampleOfArray (v : PyV) : ExBin := exampleOfArrayFuel 64 v
+
+/-- the loop body of `IterateBins.run` with the example bin computed on the nested lists (lines 97-104:
+`data00 = get_data(get_example_bin(data)); if not self._select_bins(data00): yield val; continue`).  The rest of the
+body is `iterateBinsStep` (with the answer of `select_bins` put in). -/
+def iterateBinsStepE {σ : Type} (selectBins : BinKind → Bool) (s : σ) (v : Item) : Step σ Item :=
+  match v.data with
+  | .hist h =>
+    match exampleOfHist h.dim h.binsVal with
+    | .ok b => iterateBinsStep (fun _ => selectBins (kindOfPyV b)) s v
+    | _ => ⟨[], s, some .unmodelled⟩        -- not reached for a histogram with `dim` axes of at least one bin
+  | _ => pass s v
+
+/-- `MapBins.run` likewise (lines 243-248: `bin_ = get_example_bin(hist); if not self._select_bins(bin_): …`) -/
+def mapBinsStepE {σ : Type} (selectBins : BinKind → Bool) (inner : Item → CellRes) (dropCtx : Bool) (s : σ)
+    (v : Item) : Step σ Item :=
+  match v.data with
+  | .hist h =>
+    match exampleOfHist h.dim h.binsVal with
+    | .ok b => mapBinsStep (fun _ => selectBins (kindOfPyV b)) inner dropCtx s v
+    | _ => ⟨[], s, some .unmodelled⟩
+  | _ => pass s v
+
+/-- a histogram as lena makes them: one axis per dimension, at least one bin on every axis -/
+def HistD.WellShaped (h : HistD) : Prop := h.shape.length = h.dim ∧ ∀ n ∈ h.shape, 0 < n
+
+/-- NOT the code: the loop body of `IterateBins.run` if the example bin were looked up in the bare array of bins
+(`get_example_bin(data.bins)`, the descent `while isinstance(bins, list)`) — kept to state how it differs
+(`Props/C10.lean`: `arrayDescent_*`) -/
+def iterateBinsStepArr {σ : Type} (selectBins : BinKind → Bool) (s : σ) (v : Item) : Step σ Item :=
+  match v.data with
+  | .hist h =>
+    match exampleOfArray h.binsVal with
+    | .ok b => iterateBinsStep (fun _ => selectBins (kindOfPyV b)) s v
+    | .indexError => ⟨[], s, some .indexError⟩
+    | _ => ⟨[], s, some .unmodelled⟩
   | _ => pass s v
 
 /-! ## `RunIf.run` (flow/elements.py:201-220) -/
